@@ -42,6 +42,8 @@ def oracle(prog, perm):
     ts1, e1, _ = GC.solve(prog)
     ts2, e2, _ = GC.solve(perm)
     if (ts1 is None) != (ts2 is None):
+        if common.exc_class(e1 or e2) == 'ConvergenceError':
+            return None      # iteration cap reached on one side only: solver's business (C11), not judged here
         return 'one order solves, the other raises %r' % (e1 or e2)
     if ts1 is None:
         if common.exc_class(e1) != common.exc_class(e2):
